@@ -61,6 +61,7 @@ def ulp(x):
 
 # ---------------------------------------------------------------- gamma callbacks
 _SHAPE = [0]
+_OTHER_MODELS = []
 
 
 def gamma_callable(tag, arg):
@@ -164,6 +165,17 @@ def build_model(g, cls=None):
         CALL_STATS["models_retuned_in_place"] = CALL_STATS.get("models_retuned_in_place", 0) + 1
         kw0 = dict(kw, beta=kw["beta"] * 3.0 + 1.0, kappa=min(1.0, kw["kappa"] * 7.0), tau=kw["tau"] * 2.0 + 0.125, limit_sigma=not kw["limit_sigma"])
         m = cls(**kw0)
+        if game_hash(g) % (3 * RETUNE_EVERY) >= RETUNE_EVERY:
+            # ... or it is a copy (shallow, or deep) of such a model, the original staying alive and being re-tuned again afterwards
+            import copy as _copy
+            m0 = m
+            m = _copy.copy(m0) if game_hash(g) % (3 * RETUNE_EVERY) < 2 * RETUNE_EVERY else _copy.deepcopy(m0)
+            m.beta, m.kappa, m.tau, m.limit_sigma = kw["beta"], kw["kappa"], kw["tau"], kw["limit_sigma"]
+            m0.beta, m0.tau = kw0["beta"] * 1.7, kw0["tau"] + 1.0
+            _OTHER_MODELS.append(m0)
+            del _OTHER_MODELS[:-6]
+            CALL_STATS["models_that_are_retuned_copies"] = CALL_STATS.get("models_that_are_retuned_copies", 0) + 1
+            return m
         m.beta, m.kappa, m.tau, m.limit_sigma = kw["beta"], kw["kappa"], kw["tau"], kw["limit_sigma"]
         return m
     return cls(**kw)
@@ -214,7 +226,6 @@ def nested_game(g):
 
 
 SEL_OBJECT = {}
-_OTHER_MODELS = []
 
 
 def call_rate(model, teams, g, reentrant=None, history=None):
@@ -466,6 +477,11 @@ def history_prelude(model, teams, g, h):
                     check = False
                 p.mu, p.sigma = m, s_
     CALL_STATS["history_mode_%d" % mode] = CALL_STATS.get("history_mode_%d" % mode, 0) + 1
+    if h % 2:
+        try:        # whatever else happened before: the model was asked about this very lobby (same objects, same order)
+            model.predict_win(teams); model.predict_rank(teams); model.predict_draw(teams)
+        except Exception:  # noqa: BLE001
+            pass
     other_tau = g["tau"] * 3.0 + g["beta"] / 5.0 if (h // 12) % 2 else 0.0
     opts = dict(tau=other_tau, limit_sigma=not (g["ls"] if g["lsopt"] is None else g["lsopt"]))
     if mode == 0:
